@@ -266,4 +266,32 @@ def sweep(ctx, n_leaves):
             magpy.defaults.reset()
     finally:
         magpy.defaults.reset()
+    # a show() call that FAILS while the traces are built (a user model3d trace the backend refuses, an object inside a
+    # collection, keywords given in the call) must not leave the resolved style behind on the object either
+    try:
+        import warnings as _w
+        for trial in range(4):
+            o = [magpy.magnet.Cuboid(polarization=(0, 0, 1), dimension=(1, 1, 1)), magpy.Sensor(), magpy.current.Circle(current=1, diameter=1),
+                 magpy.magnet.Sphere(polarization=(0, 0, 1), diameter=1)][trial]
+            if trial % 2:
+                o.style.color = "blue"  # style already materialised, one own value
+            o.style.model3d.add_trace(backend="generic", constructor="surface", kwargs={"x": [[0, 1]], "y": [[0, 1]], "z": [[0, 1]]})
+            target = o if trial < 2 else magpy.Collection(o)
+            before, before_id = o.style.as_dict(), id(o.style)
+            raised = None
+            with _w.catch_warnings():
+                _w.simplefilter("ignore")
+                try:
+                    magpy.show(target, backend="plotly", return_fig=True, style_color="red", style_opacity=0.5, style_path_line_width=7)
+                except Exception as e:  # noqa: BLE001
+                    raised = type(e).__name__
+            done += 1
+            if raised is not None and (o.style.as_dict() != before or id(o.style) != before_id):
+                after = o.style.as_dict()
+                diff = {k: (before.get(k), after.get(k)) for k in after if before.get(k) != after.get(k)}
+                bad("style:leak-after-failed-show", f"show() raised {raised} while drawing and left show-call / default values in the object's own style ({len(diff)} leaves changed)",
+                    {"class": type(o).__name__, "raised": raised, "changed_leaves": dict(list(diff.items())[:6]), "style_object_replaced": id(o.style) != before_id})
+                break
+    finally:
+        magpy.defaults.reset()
     return fails, {"c20_leaf_cases": done, "c20_per_family": stats}
